@@ -278,7 +278,7 @@ theorem ofB3_truth_cmpVal (op : Cmp) (x y : Val) : ofB3 (truth (cmpVal op x y)) 
   unfold cmpVal; split <;> rfl
 
 /-- splitting the COALESCE tail at its first constant argument, when that constant is not NULL -/
-theorem evalCoalesce_split (env : Env) : ∀ (rest pre c : E), splitAtConst rest = some (pre, c) → eval env c ≠ .null →
+theorem evalCoalesce_split (env : Env) (sk : Bool) : ∀ (rest pre c : E), splitAtConst sk rest = some (pre, c) → eval env c ≠ .null →
     ∀ first, evalCoalesce env (.cons first rest) =
       (match evalCoalesce env (.cons first pre) with
        | .null => eval env c
@@ -293,7 +293,7 @@ theorem evalCoalesce_split (env : Env) : ∀ (rest pre c : E), splitAtConst rest
       simp only [evalCoalesce]
       cases hf : eval env first <;> simp
       all_goals (cases hc' : eval env c <;> simp_all)
-    · cases hsp : splitAtConst t with
+    · cases hsp : splitAtConst sk t with
       | none => simp [hsp] at hs
       | some pc =>
         obtain ⟨pre', c'⟩ := pc
@@ -305,5 +305,30 @@ theorem evalCoalesce_split (env : Env) : ∀ (rest pre c : E), splitAtConst rest
         cases hf : eval env first <;> simp
         exact this
   | _ => intro pre c hs; simp [splitAtConst] at hs
+
+
+theorem splitAtConst_ends (sk : Bool) : ∀ (rest pre c : E), splitAtConst sk rest = some (pre, c) → endsCoalesce sk c = true := by
+  intro rest
+  induction rest with
+  | cons h t _ iht =>
+    intro pre c hs
+    simp only [splitAtConst] at hs
+    split at hs
+    · rename_i he; cases hs; exact he
+    · cases hsp : splitAtConst sk t with
+      | none => simp [hsp] at hs
+      | some pc =>
+        obtain ⟨pre', c'⟩ := pc
+        simp [hsp] at hs
+        obtain ⟨_, h2⟩ := hs
+        subst h2
+        exact iht pre' c' hsp
+  | _ => intro pre c hs; simp [splitAtConst] at hs
+
+/-- an argument that ends the COALESCE in the repaired code is never NULL-valued -/
+theorem endsCoalesce_ne_null (env : Env) (c : E) (h : endsCoalesce true c = true) : eval env c ≠ .null := by
+  cases c <;> simp_all [endsCoalesce, isConstant, isConstLeaf, isNullE, eval]
+  rename_i a
+  cases a <;> simp_all [isConstLeaf, isNullE, eval, negVal, toInt?]
 
 end SqlglotModel.Simplify
